@@ -15,6 +15,12 @@ if len(sys.argv) > 2 and sys.argv[2] == "shared":
     files = "change1.diff, change2.diff, change3.diff"
     demos = "demo1.* , demo2.* , demo3.*"
     extra = " Prefer changes in code that is SHARED by several operators or formats (pkg/yqlib/candidate_node.go, context.go, lib.go, data_tree_navigator.go, the lexer and expression parser, the printer and the evaluators, cmd/ flag plumbing) whose effect on THIS property is indirect, and boundary conditions (off-by-one, empty collection, first/last element, zero, negative numbers, very long input). Avoid the operator or file the property's title points at most directly."
+if len(sys.argv) > 2 and sys.argv[2] == "edge":
+    # round 5: three changes at value boundaries, in cross-document state, or in the command layer
+    n_changes = "THREE"
+    files = "change1.diff, change2.diff, change3.diff"
+    demos = "demo1.* , demo2.* , demo3.*"
+    extra = " Prefer changes whose effect depends on VALUES at a boundary (empty string, empty collection, zero, negative numbers, first/last element, an index exactly at the length, 64-bit limits, strings that look like another type, keys that look like numbers or patterns, unusual but valid spellings of a value), on the ORDER of documents / results or state kept between documents, files or results, or on the COMMAND LAYER (cmd/: flag defaults, format names and aliases, file-extension detection, stdin versus file arguments, eval versus eval-all wiring). At most one of the three may sit in the operator or file the property's title points at most directly."
 p = [json.loads(l) for l in open('/verif/properties.jsonl') if json.loads(l)['id'] == pid][0]
 wt = "/tmp/wt-%s" % pid
 out = "/tmp/seed-%s" % pid
